@@ -4,6 +4,7 @@ import itertools
 
 import numpy as np
 
+from .. import env
 from ..core import Sub
 
 PROP = {
@@ -321,6 +322,16 @@ def enum_coupled(tier):
     for i in range(3):
         for kind in ("none", "list", "int"):
             yield {"shapes": [[2, 3]] * 3, "dtype": "<f4", "bad": i, "kind": kind}
+    # the SAME object handed over for two or all three arguments (application_point = force = torque = one array, as a placeholder would be)
+    for s in COUPLED:
+        for alias in ("all", "ap-force", "ap-torque", "force-torque"):
+            for other in ((2, 3), (3, 3)):
+                if alias == "all" and other != (2, 3):
+                    continue
+                yield {"shapes": [list(s)] * 3, "dtype": "<f4", "alias": alias, "other": list(other)}
+    for kind in ("none", "list", "int", "str", "nested-list-ragged"):
+        for alias in ("all", "ap-force", "ap-torque", "force-torque"):
+            yield {"shapes": [[2, 3]] * 3, "dtype": "<f4", "alias": alias, "kind": kind, "bad": "aliased"}
 
 
 def run_coupled(ctx, case):
@@ -328,7 +339,22 @@ def run_coupled(ctx, case):
 
     shapes = [tuple(s) for s in case["shapes"]]
     vals = [np.ones(s, dtype=case["dtype"]) for s in shapes]
-    if "bad" in case:
+    if "alias" in case:
+        i, j, k = {"all": (0, 1, 2), "ap-force": (0, 1, None), "ap-torque": (0, 2, None), "force-torque": (1, 2, None)}[case["alias"]]
+        if "kind" in case:
+            shared = {"none": None, "list": [[1, 2, 3], [4, 5, 6]], "int": 3, "str": "abcdef", "nested-list-ragged": [[1, 2, 3], [4, 5]]}[case["kind"]]
+        else:
+            shared = vals[i]
+            rest = [x for x in (0, 1, 2) if x not in (i, j, k)]
+            for r in rest:
+                vals[r] = np.ones(tuple(case["other"]), dtype=case["dtype"])
+                shapes[r] = tuple(case["other"])
+        for x in (i, j, k):
+            if x is not None:
+                vals[x] = shared
+    if case.get("bad") == "aliased":
+        required, unasserted = False, False
+    elif "bad" in case:
         vals[case["bad"]] = {"none": None, "list": [[1, 2, 3], [4, 5, 6]], "int": 3}[case["kind"]]
         required, unasserted = False, False
     else:
@@ -340,7 +366,8 @@ def run_coupled(ctx, case):
         exc = None
     except Exception as e:  # noqa
         tr, exc = None, e
-    desc = f"application_point {shapes[0]}, force {shapes[1]}, torque {shapes[2]}" + (f" with argument {case['bad']} = {case['kind']}" if "bad" in case else "")
+    desc = f"application_point {shapes[0]}, force {shapes[1]}, torque {shapes[2]}" + (f" with argument {case['bad']} = {case['kind']}" if "bad" in case else "") + \
+        (f" ({case['alias']}: one and the same object)" if "alias" in case else "")
     if required and exc is not None:
         ctx.fail("ForceTorqueTrack/refuses-required-shape", f"ForceTorqueTrack: {desc} refused: {exc}")
     if not required and not unasserted and exc is None:
@@ -455,7 +482,52 @@ def run_events(ctx, case):
     ctx.case(case, not should_accept or not isinstance(v, np.ndarray), labels=["event", "accepted" if exc is None else "refused"])
 
 
+class _Sub:
+    """run_events for one step of a sequence: verdicts carry the sequence in their key and text, the step is not a case of its own"""
+
+    def __init__(self, ctx, first):
+        self.ctx, self.first = ctx, first
+
+    def fail(self, key, msg, *a, **k):
+        self.ctx.fail("after-" + self.first + "/" + key, f"(first constructor call of the process: Event({self.first})) " + msg, *a, **k)
+
+    def case(self, *a, **k):
+        pass
+
+    def __getattr__(self, name):
+        return getattr(self.ctx, name)
+
+
+def enum_event_orders(tier):
+    vals = [c["values"] for c in enum_events(tier) if c["type"] == 0]
+    for first in vals:
+        for kind in (0, 1):
+            yield {"first": first, "first_type": kind}
+
+
+def run_event_orders(ctx, case):
+    """what the FIRST constructor call of a process was (accepted or refused) has no influence on any later one: the library's module state is
+    put back to its import-time content before every case, then Event(first) is called, then every other value is judged as usual"""
+    env.reset_library_state()
+    sub = _Sub(ctx, f"{case['first']}:{case['first_type']}")
+    try:
+        run_events(sub, {"type": case["first_type"], "values": case["first"]})
+    except Exception as e:  # noqa - judged when it is its own case; here it only sets the scene
+        if type(e).__name__ in ("Violation", "Abandon"):
+            raise
+    n = 0
+    for c in enum_events("quick"):
+        if c["values"] in ("generator1",):
+            continue
+        run_events(sub, c)
+        n += 1
+    ctx.case(case, True, labels=["event-order", "first=" + case["first"]])
+
+
 SUBS = [
+    Sub("event-call-orders", run_event_orders, kind="enum", enumerate=enum_event_orders, shards=(4, 8),
+        rule="for each of the 32 kinds of values (x both event types) as the FIRST Event constructor call after the library's module state was put back to its import-time "
+             "content: all 64 (values, type) combinations judged afterwards exactly as in `events`; finite, enumerated", nontrivial_required=False),
     Sub("shape-lattice", run_shape, kind="enum", enumerate=enum_shapes, shards=(8, 16),
         rule="21 validated arguments x (171 shapes x 6 dtypes + 18 non-array kinds); finite, enumerated completely"),
     Sub("coupled-arrays", run_coupled, kind="enum", enumerate=enum_coupled, shards=(4, 8),
